@@ -1148,9 +1148,21 @@ def replay(ctx, obj):
     return [f] if f is not None else []
 
 
+def translate_all(ctx):
+    """this cluster's facts, and the facts of the state-machine cluster whose handler model the C12H theorems are about"""
+    translate(ctx)
+    from props import ikefacts
+    ikefacts.translate(ctx)
+
+
+def correspond_all(ctx):
+    from props import hdl
+    return (correspond(ctx) or []) + hdl.tie(ctx)
+
+
 CHECK = core.Check(
-    'C12', CLUSTER, 'Props/C12.v', translate=translate, correspond=correspond, oracle=oracle, replay=replay,
-    regressions=regressions, deps=('lib',),
+    'C12', CLUSTER, ['Props/C12.v', ('ikesa', 'Props/C12H.v')], translate=translate_all, correspond=correspond_all, oracle=oracle, replay=replay,
+    regressions=regressions, deps=('lib', 'ikesa'),
     rule='(1) selector pairs: exhaustive product over a small universe (2 families x 3 protocols x 7 port ranges x '
          'address ranges, incl. empty ranges) when it fits the tier budget, else a seeded sample of it, plus random '
          'wide IPv4/IPv6 ranges; (2) get_network/get_port of the universe and of random ranges (incl. reversed); '
